@@ -4,11 +4,11 @@ CONSTANTS
  NParts <- NP21
  SubsChoices = {{"t1"},{"t1","t2"}}
  CommitTP <- CTP
- SessT = 1
- RebT = 1
+ SessT = 2
+ RebT = 2
  DefT = 30
- KeepT = {FALSE}
- MaxClock = 2
+ KeepT = {TRUE}
+ MaxClock = 3
  MaxGen = 3
  FixSubChange = TRUE
  FixHbRefresh = TRUE
